@@ -1118,7 +1118,12 @@ fn rewrite_corner(rng: &mut Rng) -> (&'static str, Vec<Option<MemSource>>, Vec<S
             if rng.chance(1, 4) {
                 srcs.push(None);
             }
-            let g = *rng.pick(&["!nomatch*", "!/zzz/**", "!/a", "!src/", "!a/b/c/d/e/f", "!*.txt"]);
+            // the top-level directory excluded: the root tree becomes empty
+            if rng.chance(1, 5) {
+                let g = *rng.pick(&["!src/", "!/src", "!src", "!s*"]);
+                return ("top-excluded", srcs, vec![g.to_string()]);
+            }
+            let g = *rng.pick(&["!nomatch*", "!/zzz/**", "!/a", "!a/b/c/d/e/f", "!*.txt", "!src/a/b/c/d/e/f"]);
             ("no-match", srcs, vec![g.to_string()])
         }
     }
